@@ -17,8 +17,9 @@ def _samples(f):
 
 
 def _is_stationary_index(f):
-    st = [t for t in f.list_of_stationary_points]
-    return [any(t is s for s in st) for t in f.list_of_points]
+    """a sample is stationary iff its recorded (sub)gradient denotes zero (decided on the sample itself, not on the
+    library's own list of stationary points)"""
+    return [P.of(g).is_zero() for (x, g, v) in f.list_of_points]
 
 
 def _pairs(n, ordered=True):
